@@ -1,5 +1,5 @@
 """C05 — wait timeouts fire in [T, T+2 s], never early, never after a grant."""
-from props import engine_common
+from props import engine_common, ms_common
 from props.c01 import FINISH
 
 THEOREMS = ["Slock.C05.reachable_WInv", "Slock.C05.C05_deadline", "Slock.C05.C05_not_early", "Slock.C05.C05_zero", "Slock.C05.C05_zero_effect",
@@ -15,10 +15,13 @@ def run(ctx):
     if ctx.tier == "thorough":
         ctx.leanchecker("Slock.Properties.C05")
     engine_common.run_engine(ctx, ["C05:"], n_quick=3000, n_thorough=60000)
-    ctx.assumptions.append("server time = the virtual clock; one sweep per elapsed second (what updateCurrentTime/checkTimeOut do); millisecond waits are not modelled")
+    ms_common.run_ms(ctx, 'wait')
+    ctx.assumptions.append("server time = the virtual clock; one sweep per elapsed second (what updateCurrentTime/checkTimeOut do)")
     ctx.cov["rule"] = ("seeded sequences with waits of 1..65535 s / minutes, bursts of up to 17 ticks, grants and cancels interleaved; monitor: TIMEOUT replies in [T, T+2] s of "
                        "virtual time, no queued request 2 s past its deadline; distinct_nontrivial = distinct sequences containing at least one grant")
 
 
 def replay(path):
+    if ms_common.is_ms_replay(path):
+        return ms_common.replay_ms("C05", path)
     return engine_common.replay_engine("C05", path)
